@@ -197,7 +197,9 @@ func DrawSXG(c *core.Ctx, label string, uniq int) *LSXG {
 	return l
 }
 
-var harmless = []string{"Cache-Control-X", "X-Foo", "Link", "Vary", "ETag", "x-set-cookie-like", "cookie-", "Set-Cookie2x", "Content-Language", "x-connection"}
+var harmless = []string{"Cache-Control-X", "X-Foo", "Link", "Vary", "ETag", "x-set-cookie-like", "cookie-", "Set-Cookie2x", "Content-Language", "x-connection",
+	// ordinary end-to-end fields that share a first segment with a banned one
+	"Proxy-Status", "Upgrade-Insecure-Requests", "Public-Key-Pins-Report-Only", "Keep-Alive-Hint"}
 
 func recase(c *core.Ctx, label, name string) string {
 	if !c.Bool(label) {
